@@ -9306,6 +9306,15 @@ class SVG(Group):
                             values[SVG_ATTR_TRANSFORM] += " " + viewport_transform
                         else:
                             values[SVG_ATTR_TRANSFORM] = viewport_transform
+                    # The position and size of an svg element are not inherited by its children.
+                    for attr in (
+                        SVG_ATTR_X,
+                        SVG_ATTR_Y,
+                        SVG_ATTR_WIDTH,
+                        SVG_ATTR_HEIGHT,
+                    ):
+                        if attr in values:
+                            del values[attr]
                     if context is None:
                         stack[-1] = (context, values, width, height)
                     if context is not None:
